@@ -367,45 +367,58 @@ def _run_optimize(res, p, selftest):
 
     def fn(ex):
         pairs, sy = mpslib.fresh_alphas(m, ex, only=lambda nme: 'w_mps_quantizer' in nme)
-        saved_alpha = [(q, q.alpha.data.clone()) for _, q in mpslib.quantizers(m)]
         with SymMode(), swapped_params(pairs), mpslib.saved_thetas(m):
             # decide the precision assignment (forks on the per-channel arg-max) and make the coefficients concrete one-hot scores on this path
             m.update_softmax_options(hard=True)
             m(torch.zeros(1, 1, 2, 2))
             sel = {n: st.core.demote(q.theta_alpha) for n, q in qs}
-        # the refinement itself only depends on the order of the scores inside each column and precision: run it on a model of the path
+        # the refinement only depends on the order of the scores inside each column and precision. It runs (a) on a CANONICAL model of the path
+        # (selected precision of channel c: 1 - c/64; the others pairwise distinct values below 1/4), whose result does not depend on which model the
+        # solver happens to return - recorded findings are listed per assignment for it - and (b) on the solver's own model of the path
+        canon = {}
+        for n_, a_ in sy.items():
+            S_ = sel[n_].reshape(sel[n_].shape[0], -1)
+            P_, C_ = S_.shape
+            A_ = [[(Fraction(64 - c, 64) if float(S_[pi, c]) == 1.0 else Fraction(1 + ((c * 7 + pi * 3) % 13), 64)) for c in range(C_)] for pi in range(P_)]
+            canon[n_] = [v for row in A_ for v in row]
         mm = mpslib.grid_model(ex, sy, [], den=8, bound=2)
-        alphas = mpslib.values_of(mm, sy)
-        m2 = _mk_model(w, C, wseed)
-        mpslib.set_alphas(m2, jsonable(alphas))
-        prob, info = observe_optimize(m2)
-        return sy, alphas, prob, info
+        runs = []
+        for tag, alphas in (('canonical', canon), ('solver', mpslib.values_of(mm, sy))):
+            m2 = _mk_model(w, C, wseed)
+            mpslib.set_alphas(m2, jsonable(alphas))
+            prob, info = observe_optimize(m2)
+            runs.append((tag, alphas, prob, info))
+        return sy, runs
     ex = Explorer(timeout_ms=Q)
     n = 0
-    for pc, (sy, alphas, prob, info) in ex.explore(fn):
+    for pc, (sy, runs) in ex.explore(fn):
         n += 1
-        if selftest and n == 1:
-            prob = ('cost_increased', 'seeded')
-        res.oblige(prob is None)
-        if n <= 2:
-            res.sample({'w': w, 'C': C, 'alphas': alphas, 'result': info})
-        if prob is None:
-            res.validated += 1
-            continue
-        bef = info.get('before', {}).get('c0') if isinstance(info, dict) else None
-        key = ('' if (not isinstance(info, dict) or info.get('reassign_as_recorded', True)) else 'unrecorded|') + f'fn:optimize_prec_assignment|obs:{prob[0]}|w={"-".join(str(b) for b in w)},C={C}' + (f'|before={"-".join(str(b) for b in bef)}' if isinstance(bef, list) else '') + ('|selftest' if selftest else '')
-        if any(v['key'] == key for v in res.violations):
-            continue
-        rec = {'what_kind': 'optimize', 'w': w, 'C': C, 'wseed': wseed, 'alphas': alphas, 'observable': prob[0], 'key': key, 'what': f'optimize_prec_assignment: {prob[1]} ({info})'[:500]}
-        if selftest:
-            res.violations.append(jsonable(rec))
-            continue
-        okr, msg = replay(jsonable(rec))
-        if okr:
-            rec['replay_msg'] = msg
-            res.violations.append(jsonable(rec))
-        else:
-            res.errors.append(f'counterexample did not reproduce: {key}: {msg[:400]}')
+        for tag, alphas, prob, info in runs:
+            if selftest and n == 1:
+                prob = ('cost_increased', 'seeded')
+            res.oblige(prob is None)
+            if n <= 2 and tag == 'canonical':
+                res.sample({'w': w, 'C': C, 'alphas': alphas, 'result': info})
+            if prob is None:
+                res.validated += 1
+                continue
+            bef = info.get('before', {}).get('c0') if isinstance(info, dict) else None
+            aft = info.get('after', {}).get('c0') if isinstance(info, dict) else None
+            key = ('' if (not isinstance(info, dict) or info.get('reassign_as_recorded', True)) else 'unrecorded|') + f'fn:optimize_prec_assignment|obs:{prob[0]}|w={"-".join(str(b) for b in w)},C={C}' + \
+                (f'|model={tag}' if tag == 'canonical' else '') + (f'|before={"-".join(str(b) for b in bef)}' if isinstance(bef, list) else '') + \
+                (f'|after={"-".join(str(b) for b in aft)}' if (isinstance(aft, list) and tag == 'canonical') else '') + ('|selftest' if selftest else '')
+            if any(v['key'] == key for v in res.violations):
+                continue
+            rec = {'what_kind': 'optimize', 'w': w, 'C': C, 'wseed': wseed, 'alphas': alphas, 'observable': prob[0], 'key': key, 'what': f'optimize_prec_assignment: {prob[1]} ({info})'[:500]}
+            if selftest:
+                res.violations.append(jsonable(rec))
+                continue
+            okr, msg = replay(jsonable(rec))
+            if okr:
+                rec['replay_msg'] = msg
+                res.violations.append(jsonable(rec))
+            else:
+                res.errors.append(f'counterexample did not reproduce: {key}: {msg[:400]}')
     res.notes.append('whole function: the solver enumerates the precision assignments (arg-max paths); the refinement then runs in plain torch on a model of each path (it only depends on the order type of the coefficients within the assignment, which the path fixes only partially: stated bound)')
     res.witnesses += 1
     res.witnesses_ok += 1 if ex.n_paths >= 2 else 0
